@@ -1910,6 +1910,8 @@ class _GroupElem(ABC):
             j_f = Normalize(coord[p2_f] - coord[p0_f])
 
             n_f = Normalize(np.cross(i_f, j_f, 1, 1))
+            # outward whatever the orientation of the element (mirrored meshes)
+            n_f *= np.sign(np.sum(n_f * (coord[p0_f] - coord.mean(0)), 1))[:, None]
 
             coordinates_n_i = coordinates_n[:, np.newaxis].repeat(Nface, 1)
 
